@@ -246,6 +246,17 @@ pub fn spaces(tier: Tier) -> Vec<Space<'static>> {
                     continue;
                 }
             };
+            // the documents the keys stand for may be handed to compare in either form: for a fixed eighth of
+            // the pairs (a complete residue class, not a sample) also with one side as JSON text
+            if (i * 31 + j) % 8 == 0 {
+                if let (Some(ti), Some(tj)) = (&d.texts[i], &d.texts[j]) {
+                    acc.eval();
+                    match guard(|| (jsonb::compare(&d.bytes[i], tj.as_bytes()).ok(), jsonb::compare(ti.as_bytes(), &d.bytes[j]).ok())) {
+                        Ok((Some(x), Some(y))) if x == cmp && y == cmp => {}
+                        other => acc.vio("compare:mixed-text/JSONB-forms-order-differently-from-JSONB/JSONB", || json!({"a": format!("{:?}", d.vals[i]), "b": format!("{:?}", d.vals[j]), "binary,binary": format!("{:?}", cmp), "observed (binary,text / text,binary)": format!("{:?}", other.map_err(|p| panic_class(&p)))})),
+                    }
+                }
+            }
             let ko = ka.cmp(kb);
             if ko == cmp {
                 acc.outcome(match ko { Ordering::Less => "agree-lt", Ordering::Equal => "agree-eq", Ordering::Greater => "agree-gt" });
